@@ -29,6 +29,12 @@ func (t TDist) CDF(x float64) float64 {
 	if x == 0 {
 		return 0.5
 	} else if x > 0 {
+		if x*x < t.V {
+			// Near 0, V/(V+x²) rounds to 1 and the form below
+			// loses all precision to cancellation. Use the
+			// equivalent form in terms of x²/(V+x²).
+			return 0.5 + 0.5*mathx.BetaInc(x*x/(t.V+x*x), 0.5, t.V/2)
+		}
 		return 1 - 0.5*mathx.BetaInc(t.V/(t.V+x*x), t.V/2, 0.5)
 	} else if x < 0 {
 		return 1 - t.CDF(-x)
